@@ -720,6 +720,27 @@ pub fn gen_c17(rng: &mut Rng, thorough: bool) -> Vec<Tagged> {
             out.push((format!("loop-{:?}-tiny-steps-v{}-predict", acc, variant), Case::Net(spec, NetCmd::Predict(x))));
         }
     }
+    // NESTED loop connections: an inner loop strictly inside an outer one (different start layers, the same start
+    // layer, the same end is impossible), three levels, and overlapping but not nested ranges; every accumulation
+    for (ai, acc) in ALL_ACCS.iter().enumerate() {
+        let layouts: Vec<Vec<(usize, usize, usize, bool)>> = vec![
+            vec![(1, 1, 1 + ai % 2, false), (2, 0, 1, false)],
+            vec![(2, 1, 1, ai % 2 == 0), (3, 0, 2, false)],
+            vec![(1, 0, 1, false), (2, 0, 1, false)],
+            vec![(1, 1, 1, false), (2, 1, 1, false), (3, 0, 1, false)],
+            vec![(2, 0, 1, false), (3, 1, 1, false)],
+            vec![(2, 0, 2, true), (1, 1, 2, false)],
+        ];
+        for (li, loops) in layouts.into_iter().enumerate() {
+            let n = 2 + (ai + li) % 2;
+            let mut spec = dense_chain(rng, n, 4, 1);
+            spec.loopacc = *acc;
+            spec.loops = loops;
+            let x = rand_input(rng, Sh::Flat(n), 0);
+            out.push((format!("loop-{:?}-nested-layout{}", acc, li), Case::Net(spec.clone(), NetCmd::Forward(x.clone()))));
+            out.push((format!("loop-{:?}-nested-layout{}-predict", acc, li), Case::Net(spec, NetCmd::Predict(x))));
+        }
+    }
     // every entry point on loop networks (not only forward): predict, predict_batch, and direct writes of the
     // public map `loopbacks` between predictions (emptied, other iteration count and input-skip flag, restored,
     // filled in on a network built without loops); one loop, two loops, loops next to skips and blocks
@@ -781,6 +802,27 @@ pub fn dense_chain(rng: &mut Rng, n: usize, depth: usize, wkind: u8) -> NetSpec 
 /// script that writes the public maps `connect` / `loopbacks` directly between predictions (emptied, changed,
 /// restored - as the crate's own examples do to switch connections off and on)
 pub fn entry_point_cases(rng: &mut Rng, spec: &NetSpec, input: Sh, tag: &str, out: &mut Vec<Tagged>) {
+    // gradients after direct writes of `connect` (additive skips, no loops, output of the input's width): the
+    // backward pass routes the skip gradients by the map as it is NOW
+    if spec.skipacc == Acc::Add && spec.loops.is_empty() && !spec.connect.is_empty() {
+        let mut sp = spec.clone();
+        sp.obj = Obj::MSE;
+        let conn_map: Vec<(usize, usize)> = spec.connect.iter().map(|&(from, into)| (into, from)).collect();
+        let xb = rand_input(rng, input, 2);
+        let tb = rand_target(rng, input, Obj::MSE);
+        let mut ops = vec![NetCmd::Backward(xb.clone(), tb.clone()), NetCmd::SetConnect(vec![]), NetCmd::Backward(xb.clone(), tb.clone())];
+        if conn_map.len() > 1 {
+            ops.push(NetCmd::SetConnect(conn_map[1..].to_vec()));
+            ops.push(NetCmd::Backward(xb.clone(), tb.clone()));
+        }
+        ops.push(NetCmd::SetConnect(conn_map.clone()));
+        ops.push(NetCmd::Backward(xb.clone(), tb.clone()));
+        ops.push(NetCmd::Learn { data: vec![(xb.clone(), tb.clone())], val: None, batch: 1, epochs: 1 });
+        out.push((format!("{}-gradients-after-direct-field-writes", tag), Case::Net(sp.clone(), NetCmd::Script(ops))));
+        let mut bare = sp;
+        bare.connect = vec![];
+        out.push((format!("{}-gradients-maps-filled-directly", tag), Case::Net(bare, NetCmd::Script(vec![NetCmd::Backward(xb.clone(), tb.clone()), NetCmd::SetConnect(conn_map), NetCmd::Backward(xb.clone(), tb.clone()), NetCmd::Learn { data: vec![(xb, tb)], val: None, batch: 1, epochs: 1 }]))));
+    }
     let x = rand_input(rng, input, 0);
     out.push((format!("{}-predict", tag), Case::Net(spec.clone(), NetCmd::Predict(x.clone()))));
     let xs: Vec<Tensor> = (0..3).map(|_| rand_input(rng, input, 0)).collect();
@@ -1001,6 +1043,24 @@ pub fn gen_c04(rng: &mut Rng, thorough: bool) -> Vec<Tagged> {
         let data = rand_data(rng, 3, input, outsh, Obj::MSE);
         out.push(("learn-block-skip-loop-combination".into(), Case::Net(spec, NetCmd::Learn { data, val: None, batch: 2, epochs: 2 })));
     }
+    // consecutive samples whose inputs are NEARLY equal (5e-6 apart) or exactly equal, with different targets, and
+    // samples of tiny scale: every sample contributes ITS OWN gradient (first layer with gain 1e5)
+    for r in 0..(if thorough { 8 } else { 3 }) {
+        let mut spec = NetSpec::new(Sh::Flat(2).to_shape());
+        let d1 = Simple::Dense { out: 3, act: Act::Tanh, bias: true, dropout: None };
+        let d2 = Simple::Dense { out: 1, act: Act::Linear, bias: true, dropout: None };
+        spec.weights = Some(vec![LW::One(W::Dense(t2(3, 2, &[3e5, -2e5, 1e5, 4e5, -3e5, 2e5]), Some(t1(vec![0.1, -0.2, 0.3])))), LW::One(rand_w(rng, &d2, Sh::Flat(3), 2))]);
+        spec.layers.push(LayerSpec::One(d1));
+        spec.layers.push(LayerSpec::One(d2));
+        spec.opt = rand_opt(rng, r % 5);
+        spec.obj = Obj::MSE;
+        let b = [1e-6f32, -2e-6];
+        let data: Vec<(Tensor, Tensor)> = vec![
+            (t1(vec![b[0], b[1]]), t1(vec![0.5])), (t1(vec![b[0] + 5e-6, b[1]]), t1(vec![-0.5])), (t1(vec![b[0] + 5e-6, b[1] - 4e-6]), t1(vec![1.0])),
+            (t1(vec![b[0], b[1]]), t1(vec![0.25])), (t1(vec![b[0], b[1]]), t1(vec![-1.0])), (t1(vec![3e-7, 1e-7]), t1(vec![0.0])), (t1(vec![0.0, -0.0]), t1(vec![0.75])),
+        ];
+        out.push(("learn-nearly-equal-consecutive-samples".into(), Case::Net(spec, NetCmd::Learn { data: data.clone(), val: if r % 2 == 0 { Some((data, 5)) } else { None }, batch: 1 + r % 4, epochs: 2 })));
+    }
     // training WITH validation data over several epochs on networks whose dropout sits inside a feedback block
     // without any dense layer (convolution / deconvolution / max-pool only), and on plain convolutional networks
     // with dropout: every epoch after a validation pass still trains in training mode (dropout masks applied)
@@ -1216,6 +1276,35 @@ pub fn gen_c13(rng: &mut Rng, thorough: bool) -> Vec<Tagged> {
             let th = 2 + ((k + j) % 2) as i32;
             out.push((format!("early-loss-scale-{:e}", sc), Case::Net(spec, NetCmd::Learn { data, val: Some((val, th)), batch: 1, epochs: 12 })));
         }
+    }
+    // DIVERGING training: the rate drives the weight to infinity and then to NaN within a few epochs, or a training
+    // sample carries NaN. A NaN training loss ends `learn` with a panic - it is no way of stopping early with
+    // shortened histories; infinite losses are no reason to stop at all
+    for (k, &lr) in [1e30f32, 3e19, 1e20, -1e25, 4.0].iter().enumerate() {
+        for variant in 0..3 {
+            if !(thorough || (k + variant) % 2 == 0) {
+                continue;
+            }
+            let mut spec = NetSpec::new(Sh::Flat(1).to_shape());
+            spec.layers.push(LayerSpec::One(Simple::Dense { out: 1, act: Act::Linear, bias: false, dropout: None }));
+            spec.weights = Some(vec![LW::One(W::Dense(t2(1, 1, &[0.5]), None))]);
+            spec.opt = Opt::SGD { lr, decay: None };
+            spec.obj = Obj::MSE;
+            let data = vec![(t1(vec![1.0]), t1(vec![1.0])), (t1(vec![2.0]), t1(vec![-1.0]))];
+            let val = vec![(t1(vec![1.0]), t1(vec![0.5]))];
+            let v = match variant { 0 => None, 1 => Some((val, 3)), _ => Some((val, 100)) };
+            out.push((format!("early-diverging-training-lr{:e}", lr), Case::Net(spec, NetCmd::Learn { data, val: v, batch: 1 + k % 2, epochs: 60 })));
+        }
+    }
+    for variant in 0..3 {
+        let mut spec = NetSpec::new(Sh::Flat(1).to_shape());
+        spec.layers.push(LayerSpec::One(Simple::Dense { out: 1, act: Act::Linear, bias: false, dropout: None }));
+        spec.weights = Some(vec![LW::One(W::Dense(t2(1, 1, &[0.5]), None))]);
+        spec.opt = Opt::SGD { lr: 0.01, decay: None };
+        spec.obj = Obj::MSE;
+        let data = vec![(t1(vec![1.0]), t1(vec![1.0])), (t1(vec![if variant == 2 { f32::INFINITY } else { f32::NAN }]), t1(vec![-1.0])), (t1(vec![0.5]), t1(vec![0.0]))];
+        let val = vec![(t1(vec![1.0]), t1(vec![0.5]))];
+        out.push(("early-nan-training-sample".into(), Case::Net(spec, NetCmd::Learn { data, val: if variant == 0 { None } else { Some((val, 2)) }, batch: 1 + variant, epochs: 5 })));
     }
     // extreme tolerances: i32::MAX ("never stop"), its neighbours, zero and negative windows, against rising
     // and falling validation losses
@@ -1718,6 +1807,30 @@ pub fn gen_c12(rng: &mut Rng, thorough: bool) -> Vec<Tagged> {
             out.push(("validate-degenerate-tolerance-70".into(), Case::Net(spec2.clone(), NetCmd::Validate { data: data2.clone(), tol, pre_training: false })));
         }
     }
+    // consecutive inputs that are NEARLY equal (less than 1e-5 apart in every component), exactly equal, equal up
+    // to a NaN component, or of tiny scale (1e-7): every input is predicted and scored on its own
+    for r in 0..(if thorough { 12 } else { 4 }) {
+        let mut spec = NetSpec::new(Sh::Flat(2).to_shape());
+        let d1 = Simple::Dense { out: 3, act: Act::Tanh, bias: true, dropout: None };
+        let d2 = Simple::Dense { out: 3, act: if r % 2 == 0 { Act::Linear } else { Act::Softmax }, bias: true, dropout: None };
+        let mut w1 = rand_w(rng, &d1, Sh::Flat(2), 2);
+        if r % 4 >= 2 {
+            // large gain: inputs 5e-6 apart give clearly different outputs
+            w1 = W::Dense(t2(3, 2, &[3e5, -2e5, 1e5, 4e5, -3e5, 2e5]), Some(t1(vec![0.1, -0.2, 0.3])));
+        }
+        spec.weights = Some(vec![LW::One(w1), LW::One(rand_w(rng, &d2, Sh::Flat(3), 2))]);
+        spec.layers.push(LayerSpec::One(d1));
+        spec.layers.push(LayerSpec::One(d2));
+        let base = [0.25f32, -0.5];
+        let xs: Vec<Tensor> = vec![
+            t1(vec![base[0], base[1]]), t1(vec![base[0] + 5e-6, base[1]]), t1(vec![base[0] + 5e-6, base[1] - 4e-6]), t1(vec![base[0], base[1]]), t1(vec![base[0], base[1]]),
+            t1(vec![f32::NAN, base[1]]), t1(vec![base[0], base[1]]), t1(vec![base[0], f32::NAN]), t1(vec![f32::NAN, f32::NAN]),
+            t1(vec![1e-7, -2e-7]), t1(vec![3e-7, 1e-7]), t1(vec![-2e-7, 2e-7]), t1(vec![0.0, 0.0]), t1(vec![-0.0, 1e-9]),
+        ];
+        let data: Vec<(Tensor, Tensor)> = xs.iter().enumerate().map(|(i, x)| { let mut t = vec![0.0f32; 3]; t[i % 3] = 1.0; (x.clone(), t1(t)) }).collect();
+        out.push(("predict-batch-nearly-equal-consecutive-inputs".into(), Case::Net(spec.clone(), NetCmd::PredictBatch(xs))));
+        out.push(("validate-nearly-equal-consecutive-inputs".into(), Case::Net(spec, NetCmd::Validate { data, tol: 0.5, pre_training: false })));
+    }
     // the activation of the OUTPUT layer replaced after the layer was added (`set_activation`), across the
     // soft-max boundary in both directions, and the activation of a hidden layer replaced: the accuracy rule
     // (arg-max agreement for a soft-max output, the tolerance band otherwise) follows the activation the
@@ -1813,6 +1926,16 @@ pub fn gen_c05(rng: &mut Rng, thorough: bool) -> Vec<Tagged> {
         out.push(("par-learn-conv-chain-equal-padded-size".into(), Case::Net(sp.clone(), NetCmd::Learn { data, val: None, batch: 3, epochs: 2 })));
         out.push(("par-predict-batch-conv-chain-equal-padded-size".into(), Case::Net(sp, NetCmd::PredictBatch(xs))));
     }
+    // an optimizer step that overflows part of the parameters, then prediction and validation on the same object
+    for &n in &[130usize, 70] {
+        let (spec, data) = overflowing_job(n);
+        let ops = vec![
+            NetCmd::Learn { data: data.clone(), val: None, batch: n, epochs: 1 },
+            NetCmd::PredictBatch(data.iter().map(|d| d.0.clone()).collect()),
+            NetCmd::Validate { data: data.clone(), tol: 0.1, pre_training: false },
+        ];
+        out.push(("par-overflowing-step-then-predict-validate".into(), Case::Net(spec, NetCmd::Script(ops))));
+    }
     // very wide dense layers (4096 inputs, 2100 outputs, 2049 inputs)
     for variant in 0..(if thorough { 3 } else { 2 }) {
         let (spec, input, outsh) = wide_dense_net(rng, variant);
@@ -1886,6 +2009,30 @@ pub fn wide_dense_net(rng: &mut Rng, variant: usize) -> (NetSpec, Sh, Sh) {
     spec.opt = Opt::SGD { lr: 0.001, decay: None };
     spec.obj = Obj::MSE;
     (spec, Sh::Flat(i), Sh::Flat(o_))
+}
+
+/// a job in which an optimizer step OVERFLOWS part of the parameters (rate 1e35, one feature of order 1e3): the
+/// non-finite weights, the predictions and the validation result are still a pure function of weights and data
+pub fn overflowing_job(n: usize) -> (NetSpec, Vec<(Tensor, Tensor)>) {
+    let mut spec = NetSpec::new(Sh::Flat(3).to_shape());
+    let d1 = Simple::Dense { out: 4, act: Act::Linear, bias: true, dropout: None };
+    let d2 = Simple::Dense { out: 2, act: Act::Linear, bias: true, dropout: None };
+    let w1: Vec<f32> = (0..12).map(|i| 0.1 * (i as f32 - 5.5)).collect();
+    let w2: Vec<f32> = (0..8).map(|i| 0.2 * (3.5 - i as f32)).collect();
+    spec.weights = Some(vec![
+        LW::One(W::Dense(t2(4, 3, &w1), Some(t1(vec![0.1, -0.1, 0.2, 0.0])))),
+        LW::One(W::Dense(t2(2, 4, &w2), Some(t1(vec![0.05, -0.05])))),
+    ]);
+    spec.layers.push(LayerSpec::One(d1));
+    spec.layers.push(LayerSpec::One(d2));
+    spec.opt = Opt::SGD { lr: 1e35, decay: None };
+    spec.obj = Obj::MSE;
+    let data: Vec<(Tensor, Tensor)> = (0..n).map(|i| {
+        let a = (i % 7) as f32 * 0.25 - 0.75;
+        let b = (i % 5) as f32 * 0.5 - 1.0;
+        (t1(vec![a, b, 1e3 + i as f32]), t1(vec![a + b, a - b]))
+    }).collect();
+    (spec, data)
 }
 
 /// runs one job in pools of every size, repeated, with and without schedule perturbation: all results equal
@@ -1994,6 +2141,16 @@ pub fn fals_c05(rng: &mut Rng, thorough: bool) -> crate::fals::Fals {
         let big_pools: Vec<usize> = if thorough { vec![1, 2, 4, 8, 16] } else { vec![1, 4, 8] };
         let cmd = NetCmd::Learn { data, val: None, batch: 64, epochs: 2 };
         across_pools(&mut f, rng, &big_pools, 2, &spec, &cmd, "schedule/learn/large-batch-x-parameters", "learn", "256->256->8 dense network, batch 64");
+    }
+    // an optimizer step that overflows part of the parameters: what follows is still deterministic
+    for &n in &[130usize, 65] {
+        let (spec, data) = overflowing_job(n);
+        let cmd = NetCmd::Script(vec![
+            NetCmd::Learn { data: data.clone(), val: None, batch: n, epochs: 1 },
+            NetCmd::PredictBatch(data.iter().map(|d| d.0.clone()).collect()),
+            NetCmd::Validate { data: data.clone(), tol: 0.1, pre_training: false },
+        ]);
+        across_pools(&mut f, rng, &pools, reps.max(3), &spec, &cmd, "schedule/script/overflowing-step", "learn + predict_batch + validate", &format!("3->4->2 linear network, rate 1e35, {} samples", n));
     }
     // very wide dense layers: a nested parallel reduction inside ONE sample's forward / backward pass would
     // associate the float sums differently in pools of different sizes
